@@ -68,7 +68,7 @@ def main():
             return 2
         # a path hint in the header overrides the package-name table
         hint = re.search(r"([\w/]+)/zz_seed_demo_test\.go", text)
-        if hint and os.path.isdir(os.path.join(wt, hint.group(1))):
+        if hint and not hint.group(1).startswith("/") and os.path.isdir(os.path.join(wt, hint.group(1))):
             ddir = hint.group(1)
         dst = os.path.join(wt, ddir, "zz_seed_demo_test.go")
         runcmd = "go test %s -count=1 -run 'Seed|ZZ|Demo' ./%s" % (tags, ddir)
